@@ -499,3 +499,50 @@ fn condvar_spurious_wakeup_fault() {
     assert!(run(false), "the `if` waiter must be broken by the spurious wake-up");
     assert!(!run(true), "the looping waiter must survive it");
 }
+
+/// Two threads spin with `yield_now` on a flag a third thread sets; under
+/// every strategy — also priority-based ones that never prefer the third
+/// thread — the run terminates (yield marks keep spinners from handing the
+/// turn to each other for ever).
+#[test]
+fn spinners_do_not_starve_a_third_thread() {
+    use dsim::shim::sync::atomic::{AtomicUsize, Ordering};
+    use std::sync::Arc;
+    let strategies = [
+        dsim::StrategySpec::RunToBlock,
+        dsim::StrategySpec::Random { switch_permille: 50 },
+        dsim::StrategySpec::Pct { depth: 3, est_len: 200 },
+        dsim::StrategySpec::Starve { victim: 3, switch_permille: 100 },
+        dsim::StrategySpec::Starve { victim: 1, switch_permille: 100 },
+    ];
+    for (k, strategy) in strategies.into_iter().enumerate() {
+        for seed in 0..40u64 {
+            let cfg = dsim::RunConfig { seed, strategy: strategy.clone(), max_steps: 5_000, ..dsim::RunConfig::default() };
+            let r = dsim::run(
+                cfg,
+                Box::new(|| {
+                    let flag = Arc::new(AtomicUsize::new(0));
+                    let mut hs = Vec::new();
+                    for _ in 0..2 {
+                        let f = flag.clone();
+                        hs.push(dsim::shim::thread::spawn(move || {
+                            while f.load(Ordering::Acquire) < 20 {
+                                dsim::shim::thread::yield_now();
+                            }
+                        }));
+                    }
+                    let f = flag.clone();
+                    hs.push(dsim::shim::thread::spawn(move || {
+                        for _ in 0..20 {
+                            f.fetch_add(1, Ordering::Release);
+                        }
+                    }));
+                    for h in hs {
+                        h.join().unwrap();
+                    }
+                }),
+            );
+            assert!(r.failure.is_none(), "strategy {k} seed {seed}: {:?}", r.failure);
+        }
+    }
+}
